@@ -118,12 +118,13 @@ const (
 
 // ConnBackendPlan scripts the backend for one connection.
 type ConnBackendPlan struct {
-	NewSession []Verdict // by occurrence on this connection; beyond the list: accept
-	Data       []DataPlan
-	ParkMail   Dur
-	ParkRcpt   Dur
-	ParkLogout Dur // only applied when Logout is not called under Conn.locker
-	Auth       *AuthPlan
+	NewSession     []Verdict // by occurrence on this connection; beyond the list: accept
+	Data           []DataPlan
+	ParkNewSession Dur // NewSession is slow (it is called with no lock held)
+	ParkMail       Dur
+	ParkRcpt       Dur
+	ParkLogout     Dur // only applied when Logout is not called under Conn.locker
+	Auth           *AuthPlan
 }
 
 // BackendPlan scripts the whole backend.
@@ -305,6 +306,7 @@ func (b *SimBackend) NewSession(c *smtp.Conn) (smtp.Session, error) {
 	if occ < len(cp.NewSession) {
 		v = cp.NewSession[occ]
 	}
+	ev.park(cp.ParkNewSession)
 	if v.Kind == vPanic {
 		ev.Panicked = true
 		ev.End = time.Now().UnixNano()
